@@ -23,6 +23,10 @@ def encodings(rng, variant, y, m):
         nds.append(rng.choice(inside))
     nds = [nd for nd in nds if -32768 <= nd <= 32767]
     out = [(smooth.encode(y, m, nd), float(nd), f"nd={nd}") for nd in nds]
+    if variant != "optvplc":          # (optvplc takes int16 data) the float64 kernels accept any float as placeholder, also the extreme finite
+        # ones used as fill values of float rasters (GDAL's -DBL_MAX ...): `0 * (placeholder - z)` must not overflow on the way
+        for big in (-1.7976931348623157e308, 1e200, -3.4028234663852886e38):
+            out.append((np.array([float(v) if ok else big for v, ok in zip(y, m)], dtype="float64"), big, f"nd={big:g}"))
     if variant in smooth.NANOK:
         spare = float(hi + 7)
         for bad, name in ((float("nan"), "NaN"), (float("inf"), "+inf"), (float("-inf"), "-inf")):
@@ -105,8 +109,8 @@ def run(ctx: core.Ctx):
             if nvalid >= smooth.min_valid(variant):
                 ctx.disagree("F", variant, inp, "pass-through", r0[0].tolist(), note="model passes through although enough valid cells")
             for (arr, nd, name), r in zip(encs, results):
-                if name in ("NaN", "+inf", "-inf", "mixed nd/NaN"):
-                    continue   # non-finite cells cannot be echoed in an int16 band
+                if name in ("NaN", "+inf", "-inf", "mixed nd/NaN") or abs(nd) > 32767:
+                    continue   # non-finite / huge cells cannot be echoed in an int16 band
                 want = arr.astype(np.int64)
                 if not np.array_equal(r[0], want) or (r[1] is not None and r[1] != 0.0):
                     ctx.fail(variant, dict(inp, encoding=name), dict(band=r[0].tolist(), lopt=r[1]), dict(band=want.tolist(), lopt=0.0),
